@@ -77,6 +77,17 @@ def regen_fmt_tables(status):
     _one('fmt_tables', 'TallyVerif/Gen/FmtTables.lean', 'TallyVerif.Gen.FmtTables', tables, status)
 
 
+def regen_config_tables(status):
+    from .translate import config_tables
+
+    def tables():
+        srcs = [common.read(os.path.join(common.SRC, *rel)) for rel in (('config_loader.py',), ('format_parser.py',), ('commands', 'run.py'), ('parsers.py',))]
+        text, t = config_tables.translate(*srcs)
+        return text, {'input_sha': common.sha(''.join(srcs)), 'tables': {k: (len(v) if isinstance(v, list) else v) for k, v in t.items()}}
+
+    _one('config_tables', 'TallyVerif/Gen/ConfigTables.lean', 'TallyVerif.Gen.ConfigTables', tables, status)
+
+
 def regen_fs_steps(status):
     from .translate import fs_steps
 
@@ -137,6 +148,7 @@ def regen_all():
     regen_specificity(status)
     regen_expr_tables(status)
     regen_fmt_tables(status)
+    regen_config_tables(status)
     regen_fs_steps(status)
     regen_report_types(status)
     regen_amount_tables(status)
